@@ -27,6 +27,7 @@
 #include <functional>
 #include <iomanip>
 #include <sstream>
+#include <charconv>
 #include <stdexcept>
 #include <variant>
 #include <cassert>
@@ -1263,7 +1264,13 @@ std::ostream& expression_t::print(std::ostream& os, bool old) const
     case CONSTANT:
 
         if (get_type().is(Constants::DOUBLE)) {
-            os << get_double_value();
+            // shortest text that reads back as exactly the same double, and that is still a floating literal
+            char buf[32];
+            auto res = std::to_chars(buf, buf + sizeof(buf), get_double_value());
+            auto text = std::string_view(buf, res.ptr - buf);
+            os << text;
+            if (text.find_first_of(".en") == std::string_view::npos)
+                os << ".0";
         } else if (get_type().is_string()) {
             os << get_string_value();
         } else if (get_type().is_integer()) {
